@@ -4,6 +4,7 @@ package mod_block
 
 import (
 	"net"
+	"net/url"
 	"sync"
 
 	"github.com/bfenetworks/bfe/bfe_basic"
@@ -83,5 +84,25 @@ func VerifProductBlock(hasGlobal bool, global []VerifRule, hasProduct bool, prod
 	req.Context = make(map[interface{}]interface{})
 	req.Route.Product = "p"
 	ret, _ := verifMod.productBlockHandler(req)
+	return ret == bfe_module.BfeHandlerClose
+}
+
+// VerifBlockFresh starts a sequence of rule-file loads with an empty module (no rules loaded yet).
+func VerifBlockFresh() *ModuleBlock {
+	verifInit()
+	return NewModuleBlock()
+}
+
+// VerifBlockLoadFile loads a product rule file the way the reload handler does (loadProductRuleConf with ?path=).
+func VerifBlockLoadFile(m *ModuleBlock, path string) bool {
+	return m.loadProductRuleConf(url.Values{"path": []string{path}}) == nil
+}
+
+// VerifBlockRequest runs productBlockHandler for a request of product "p".
+func VerifBlockRequest(m *ModuleBlock) bool {
+	req := &bfe_basic.Request{HttpRequest: &bfe_http.Request{Method: "GET", Header: make(bfe_http.Header)}}
+	req.Context = make(map[interface{}]interface{})
+	req.Route.Product = "p"
+	ret, _ := m.productBlockHandler(req)
 	return ret == bfe_module.BfeHandlerClose
 }
